@@ -485,9 +485,31 @@ func channels() {
 					run.Violation("C17/channel/sequential", fmt.Sprintf("registered %#x, Notify(%#x) x%d: channel holds %d tokens, want %d", m, nm, rep+1, len(ch), want), nil)
 				}
 			}
+			had := len(ch)
 			q.EventUnregister(&e)
+			// a token delivered while the entry was registered belongs to the waiter: leaving
+			// the queue must not take it away
+			if len(ch) != had {
+				run.Violation("C17/channel/token-taken-by-unregister", fmt.Sprintf("registered %#x, Notify(%#x) left %d token in the channel; after EventUnregister it holds %d", m, nm, had, len(ch)), nil)
+			}
 			for len(ch) > 0 {
 				<-ch
+			}
+			// one channel shared by entries on two queues: unregistering one entry leaves the
+			// other queue's notification where it is
+			{
+				var q1, q2 waiter.Queue
+				e1, c := waiter.NewChannelEntry(nil)
+				e2, _ := waiter.NewChannelEntry(c)
+				q1.EventRegister(&e1, m)
+				q2.EventRegister(&e2, m)
+				q2.Notify(nm)
+				had := len(c)
+				q1.EventUnregister(&e1)
+				if len(c) != had {
+					run.Violation("C17/channel/token-taken-by-unregister", fmt.Sprintf("shared channel: the other queue's Notify(%#x) left %d token; unregistering the first entry leaves %d", nm, had, len(c)), nil)
+				}
+				q2.EventUnregister(&e2)
 			}
 			q.Notify(nm)
 			if len(ch) != 0 {
